@@ -143,6 +143,14 @@ class Fallback(Val):
     __slots__ = ()
 
 
+class Effect:
+    """a call model's answer that also WRITES through `&mut` arguments: ret = the returned value, writes = [(argument index, new
+    value of the place behind that argument)] (e.g. `Read::read_to_string(&mut file, &mut buf)`)"""
+
+    def __init__(self, ret, writes):
+        self.ret, self.writes = ret, writes
+
+
 _FRAMES = {}
 _FRAME_SEQ = [0]
 MAX_DEPTH = 40        # nested interpretations (followed callees, closures); termination is bounded by max_steps as well
@@ -533,8 +541,21 @@ class Interp:
                 nv[i] = val
                 env[p["l"]] = Val("tuple", nv)
                 return
-        if p["p"] and p["p"][0] == "*":
-            # write through a reference: update the referent when it is a plain ref to a known value
+        if all(e == "*" or (isinstance(e, dict) and ("f" in e or "downcast" in e)) for e in p["p"]):
+            # `(*self).field = v`, `_x.0.1 = v`: the storage is found by walking references (into the owner's frame for `&mut`
+            # place references) and fields
+            fields = tuple(e["f"] for e in p["p"] if isinstance(e, dict) and "f" in e)
+            try:
+                fr, l_, path = _resolve_place(("place", p["l"], getattr(self, "fid", 0), fields), env)
+                slot = _Slot(fr if fr is not None else env, l_, path)
+                if slot.get("slot") is not None or not path:
+                    slot["slot"] = val
+                    return
+            except Exception:
+                pass
+            if p["p"][0] == "*":
+                return
+        elif p["p"] and p["p"][0] == "*":
             return
         env[p["l"]] = UNKNOWN
 
@@ -552,6 +573,11 @@ class Interp:
         fb = None
         if self.call_model is not None:
             r = self.call_model(cs, args)
+            if isinstance(r, Effect):
+                for i_, nv_ in r.writes:
+                    if i_ < len(args) and args[i_].k == "ref" and _is_place(args[i_].extra):
+                        _Slot(*_resolve_place(args[i_].extra, getattr(self, "_env", {})))["slot"] = nv_
+                return r.ret
             if isinstance(r, Fallback):
                 fb = Val(r.k, r.v, r.extra)
             elif r is not None:
@@ -682,6 +708,88 @@ class Interp:
                 if n_ < lo:
                     return nerr(kind)
                 return ok(Val("tuple", [vstr(inp[n_:]), vstr(inp[:n_])]))
+            if kind in ("take_till",):
+                lo, pred = p.v
+                n_ = 0
+                while n_ < len(inp):
+                    rb = self.call_closure(cs, pred, [Val("char", inp[n_])]).deref()
+                    if rb.k != "bool":
+                        return None
+                    if rb.v:
+                        break
+                    n_ += 1
+                if n_ < lo:
+                    return nerr("TakeTill1")
+                return ok(Val("tuple", [vstr(inp[n_:]), vstr(inp[:n_])]))
+            if kind in ("tag", "char", "one_of", "none_of"):
+                v_ = p.v[0].deref()
+                if v_.k not in ("str", "char"):
+                    return None
+                if kind == "tag":
+                    return ok(Val("tuple", [vstr(inp[len(v_.v):]), vstr(v_.v)])) if inp.startswith(v_.v) else nerr("Tag")
+                if kind == "char":
+                    return ok(Val("tuple", [vstr(inp[1:]), Val("char", inp[0])])) if inp[:1] == v_.v and inp else nerr("Char")
+                hit = bool(inp) and ((inp[0] in v_.v) == (kind == "one_of"))
+                return ok(Val("tuple", [vstr(inp[1:]), Val("char", inp[0])])) if hit else nerr("OneOf")
+            if kind in ("pair", "tuple", "preceded", "terminated", "separated_pair", "delimited"):
+                outs, cur_ = [], inp
+                for q in p.v:
+                    s1 = split_ok(apply(q, cur_))
+                    if s1 is None:
+                        return None
+                    if s1[0] == "Err":
+                        return s1[1]
+                    outs.append(s1[2])
+                    cur_ = s1[1]
+                pick = {"pair": outs, "tuple": outs, "preceded": outs[1:2], "terminated": outs[0:1], "separated_pair": [outs[0], outs[-1]], "delimited": outs[1:2]}[kind]
+                return ok(Val("tuple", [vstr(cur_), Val("tuple", pick) if kind in ("pair", "tuple", "separated_pair") else pick[0]]))
+            if kind == "alt":
+                last = None
+                for q in p.v:
+                    r1 = apply(q, inp)
+                    s1 = split_ok(r1)
+                    if s1 is None:
+                        return None
+                    if s1[0] == "Ok" or "Failure" in repr(s1[1]):
+                        return r1
+                    last = s1[1]
+                return last
+            if kind in ("opt", "all_consuming", "recognize", "value", "many1", "many0", "complete", "cut"):
+                q = p.v[-1]
+                if kind in ("many1", "many0"):
+                    outs, cur_ = [], inp
+                    for _ in range(200):
+                        s1 = split_ok(apply(q, cur_))
+                        if s1 is None:
+                            return None
+                        if s1[0] == "Err":
+                            if "Failure" in repr(s1[1]):
+                                return s1[1]
+                            break
+                        if s1[1] == cur_:
+                            return nerr("Many")
+                        outs.append(s1[2])
+                        cur_ = s1[1]
+                    if kind == "many1" and not outs:
+                        return nerr("Many1")
+                    return ok(Val("tuple", [vstr(cur_), Val("list", outs)]))
+                r1 = apply(q, inp)
+                s1 = split_ok(r1)
+                if s1 is None:
+                    return None
+                if kind == "opt":
+                    if s1[0] == "Err":
+                        return s1[1] if "Failure" in repr(s1[1]) else ok(Val("tuple", [vstr(inp), NONE_V]))
+                    return ok(Val("tuple", [vstr(s1[1]), some(s1[2])]))
+                if s1[0] == "Err":
+                    return s1[1]
+                if kind == "all_consuming":
+                    return r1 if s1[1] == "" else nerr("Eof")
+                if kind == "recognize":
+                    return ok(Val("tuple", [vstr(s1[1]), vstr(inp[:len(inp) - len(s1[1])])]))
+                if kind == "value":
+                    return ok(Val("tuple", [vstr(s1[1]), p.v[0]]))
+                return r1
             if kind == "map_res":
                 parser, f_ = p.v
                 s1 = split_ok(apply(parser, inp))
@@ -730,6 +838,18 @@ class Interp:
             return Val("adt", [d[0].v, d[1].v, args[2]], ("nom", "take_while_m_n"))
         if fn in ("nom::bytes::complete::take_while1", "nom::bytes::complete::take_while") and len(d) == 1:
             return Val("adt", [1 if fn.endswith("1") else 0, None, args[0]], ("nom", "take_while1"))
+        if fn in ("nom::bytes::complete::take_till1", "nom::bytes::complete::take_till") and len(d) == 1:
+            return Val("adt", [1 if fn.endswith("1") else 0, args[0]], ("nom", "take_till"))
+        if fn in ("nom::bytes::complete::tag", "nom::character::complete::char", "nom::character::complete::one_of", "nom::character::complete::none_of") and len(d) == 1:
+            return Val("adt", [args[0]], ("nom", m))
+        if fn in ("nom::sequence::pair", "nom::sequence::preceded", "nom::sequence::terminated", "nom::sequence::separated_pair", "nom::sequence::delimited") and len(args) >= 2:
+            return Val("adt", list(args), ("nom", m))
+        if fn in ("nom::sequence::tuple", "nom::branch::alt") and len(d) == 1 and d[0].k == "tuple":
+            return Val("adt", list(d[0].v), ("nom", m))
+        if fn in ("nom::combinator::opt", "nom::combinator::all_consuming", "nom::combinator::recognize", "nom::combinator::complete", "nom::combinator::cut", "nom::multi::many1", "nom::multi::many0") and len(args) == 1:
+            return Val("adt", [args[0]], ("nom", m))
+        if fn == "nom::combinator::value" and len(args) == 2:
+            return Val("adt", [args[0], args[1]], ("nom", m))
         if fn in ("nom::combinator::map_res", "nom::combinator::map") and len(args) == 2:
             return Val("adt", [args[0], args[1]], ("nom", m))
         if fn in ("nom::multi::fold_many1", "nom::multi::fold_many0") and len(args) == 3:
@@ -743,6 +863,16 @@ class Interp:
                     n_ += 1
                 return ok(Val("tuple", [vstr(inp[n_:]), vstr(inp[:n_])])) if n_ else nerr("Digit")
             return None
+        for nm_, cls_, ek_ in (("alpha1", lambda ch: ch.isalpha() and ord(ch) < 128, "Alpha"), ("alphanumeric1", lambda ch: ch.isalnum() and ord(ch) < 128, "AlphaNumeric"),
+                               ("digit0", lambda ch: ch in "0123456789", None), ("space0", lambda ch: ch in " \t", None), ("multispace0", lambda ch: ch in " \t\r\n", None)):
+            if nm.startswith("nom::character::complete::" + nm_) or fn.startswith("nom::character::complete::" + nm_):
+                if d and d[0].k == "str":
+                    inp = d[0].v
+                    n_ = 0
+                    while n_ < len(inp) and cls_(inp[n_]):
+                        n_ += 1
+                    return ok(Val("tuple", [vstr(inp[n_:]), vstr(inp[:n_])])) if (n_ or ek_ is None) else nerr(ek_)
+                return None
         # applying a combinator term: `<term>::{closure#0}(&mut parser, (input,))`
         if "{closure" in nm and d and d[0].k == "adt" and isinstance(d[0].extra, tuple) and d[0].extra[0] == "nom" and len(d) > 1:
             inp = d[1].v[0].deref() if d[1].k == "tuple" and d[1].v else d[1]
@@ -877,6 +1007,8 @@ class Interp:
                 return vbool(not av)
             if m == "iter":
                 return Val("iter", [Val("ref", x) for x in d[0].v])
+        if fn.startswith("core::cmp::PartialOrd::") and len(d) == 2 and d[0].k == "variant" and str(d[0].extra).startswith("log::Level"):
+            return vbool(False)                             # `log_enabled` tests of the log macros: logging is off in an evaluation
         if fn.startswith(("core::cmp::PartialOrd::", "core::cmp::Ord::")) and len(d) == 2 and d[0].k == d[1].k and d[0].k in ("int", "str", "char"):
             x, y = d[0].v, d[1].v
             if m in ("lt", "le", "gt", "ge"):
@@ -892,6 +1024,32 @@ class Interp:
             return vint(max(d[0].v, d[1].v) if fn.endswith("max") else min(d[0].v, d[1].v))
         if fn in ("alloc::boxed::box_assume_init_into_vec_unsafe", "alloc::slice::<impl [T]>::into_vec") and d and d[0].k == "list":
             return d[0]
+        if fn == "core::intrinsics::discriminant_value" and d and (d[0].k == "variant" or (d[0].k == "adt" and d[0].extra)):
+            adt_, nm_ = (d[0].extra, d[0].v) if d[0].k == "variant" else (d[0].extra[0], d[0].extra[1])
+            try:
+                vs_ = self.body.prog.adt_variants(adt_) if isinstance(adt_, str) and self.body.prog.adt(adt_) is not None else None
+            except Exception:
+                vs_ = None
+            if vs_ and nm_ in vs_:
+                return vint(vs_.index(nm_))               # fieldless / default-numbered enums: the derives compare these
+            if adt_ == "core::option::Option":
+                return vint(1 if nm_ == "Some" else 0)
+            if adt_ == "core::result::Result":
+                return vint(0 if nm_ == "Ok" else 1)
+        if fn == "core::default::Default::default" and not args:
+            nm_ = cs.name or ""
+            if nm_.startswith(("<alloc::vec::Vec<", "<std::collections::hash::set::HashSet<", "<alloc::collections::btree::set::BTreeSet<")):
+                return Val("list", [])
+            if nm_.startswith(("<std::collections::hash::map::HashMap<", "<alloc::collections::btree::map::BTreeMap<")):
+                return Val("list", [], "map")
+            if nm_.startswith("<core::option::Option<"):
+                return NONE_V
+            if nm_.startswith("<alloc::string::String as"):
+                return vstr("")
+            if nm_.startswith("<bool as"):
+                return vbool(False)
+            if nm_.startswith(("<u8 as", "<u16 as", "<u32 as", "<u64 as", "<usize as", "<i32 as", "<i64 as", "<isize as")):
+                return vint(0)
         if fn in ("alloc::string::String::new", "alloc::string::String::with_capacity"):
             return vstr("")
         if fn == "alloc::vec::Vec::with_capacity":
@@ -1034,13 +1192,46 @@ class Interp:
         if fn == "alloc::vec::Vec::push" and cur.k == "list" and len(args) > 1:
             env[tgt] = Val("list", list(cur.v) + [args[1]])
             return UNIT
-        if fn in ("core::iter::traits::collect::Extend::extend", "alloc::vec::Vec::extend_from_slice") and cur.k == "list" and len(args) > 1 and args[1].deref().k in ("iter", "list"):
+        if fn in ("core::iter::traits::collect::Extend::extend", "alloc::vec::Vec::extend_from_slice") and cur.k == "list" and cur.extra != "map" and len(args) > 1 and args[1].deref().k in ("iter", "list"):
             src = args[1].deref()
             items = [x.deref() if (fn.endswith("extend_from_slice")) else x for x in src.v]
             env[tgt] = Val("list", list(cur.v) + items)
             return UNIT
         if fn == "alloc::vec::Vec::append" and cur.k == "list" and len(args) > 1 and args[1].deref().k == "list":
             env[tgt] = Val("list", list(cur.v) + list(args[1].deref().v))
+            return UNIT
+        if fn == "core::ops::arith::AddAssign::add_assign" and cur.k == "str" and len(args) > 1 and args[1].deref().k == "str":
+            env[tgt] = vstr(cur.v + args[1].deref().v)
+            return UNIT
+        if fn == "alloc::string::String::replace_range" and cur.k == "str" and len(args) > 2 and args[2].deref().k == "str" and all(ord(ch) < 128 for ch in cur.v):
+            rg = args[1].deref()
+            lo = hi = None
+            if rg.k == "adt" and rg.extra:
+                rn = str(rg.extra[0])
+                iv = [x.deref().v if x.deref().k == "int" else None for x in rg.v]
+                if rn.endswith("ops::range::RangeTo") and len(iv) == 1:
+                    lo, hi = 0, iv[0]
+                elif rn.endswith("ops::range::RangeFrom") and len(iv) == 1:
+                    lo, hi = iv[0], len(cur.v)
+                elif rn.endswith("ops::range::Range") and len(iv) == 2:
+                    lo, hi = iv
+                elif rn.endswith("ops::range::RangeFull"):
+                    lo, hi = 0, len(cur.v)
+            elif rg.k == "variant" and str(rg.extra).endswith("RangeFull"):
+                lo, hi = 0, len(cur.v)
+            if lo is None or hi is None or not (0 <= lo <= hi <= len(cur.v)):
+                return None
+            env[tgt] = vstr(cur.v[:lo] + args[2].deref().v + cur.v[hi:])
+            return UNIT
+        if fn == "alloc::string::String::insert_str" and cur.k == "str" and len(args) > 2 and args[1].deref().k == "int" and args[2].deref().k == "str" and all(ord(ch) < 128 for ch in cur.v):
+            i_ = args[1].deref().v
+            env[tgt] = vstr(cur.v[:i_] + args[2].deref().v + cur.v[i_:])
+            return UNIT
+        if fn == "alloc::string::String::truncate" and cur.k == "str" and len(args) > 1 and args[1].deref().k == "int" and all(ord(ch) < 128 for ch in cur.v):
+            env[tgt] = vstr(cur.v[:args[1].deref().v])
+            return UNIT
+        if fn == "alloc::string::String::clear" and cur.k == "str":
+            env[tgt] = vstr("")
             return UNIT
         if fn in ("alloc::string::String::push", "alloc::string::String::push_str") and cur.k == "str" and len(args) > 1 and args[1].deref().k in ("str", "char"):
             env[tgt] = vstr(cur.v + args[1].deref().v)
@@ -1051,6 +1242,30 @@ class Interp:
             env[tgt] = Val("list", [x for x in cur.v if x not in old] + [Val("tuple", [args[1], args[2]])], "map")
             return some(old[0].v[1]) if old else NONE_V
         m_ = fn.rsplit("::", 1)[-1]
+        if cur.k == "list" and fn.startswith(("std::collections::hash::set::HashSet::", "alloc::collections::btree::set::BTreeSet::")) and m_ in ("insert", "remove") and len(args) > 1:
+            k0 = args[1].deref()
+            if k0.k in ("str", "int", "variant", "char") and all(x.deref().k in ("str", "int", "variant", "char") for x in cur.v):
+                same = [x for x in cur.v if x.deref().k == k0.k and x.deref().v == k0.v]
+                if m_ == "insert":
+                    if not same:
+                        env[tgt] = Val("list", list(cur.v) + [args[1]], cur.extra)
+                    return vbool(not same)
+                env[tgt] = Val("list", [x for x in cur.v if x not in same], cur.extra)
+                return vbool(bool(same))
+        if fn == "core::iter::traits::collect::Extend::extend" and cur.k == "list" and cur.extra == "map" and len(args) > 1 and args[1].deref().k in ("iter", "list"):
+            out_ = list(cur.v)
+            for x in args[1].deref().v:
+                xd = x.deref()
+                if xd.k != "tuple" or len(xd.v) != 2 or xd.v[0].deref().k not in ("str", "int", "variant"):
+                    return None
+                out_ = [y for y in out_ if not (y.deref().v[0].deref().k == xd.v[0].deref().k and y.deref().v[0].deref().v == xd.v[0].deref().v)] + [xd]
+            env[tgt] = Val("list", out_, "map")
+            return UNIT
+        if fn == "std::path::PathBuf::pop" and cur.k == "str":
+            if "/" in cur.v.rstrip("/") and cur.v != "/":
+                env[tgt] = vstr(cur.v.rstrip("/").rsplit("/", 1)[0] or "/")
+                return vbool(True)
+            return vbool(False)
         if cur.k == "list" and fn.startswith(("alloc::slice::<impl [T]>::", "core::slice::<impl [T]>::", "alloc::vec::Vec::")):
             if m_ == "reverse":
                 env[tgt] = Val("list", list(cur.v)[::-1], cur.extra)
@@ -1142,7 +1357,7 @@ class Interp:
         if fn == "std::path::PathBuf::push" and len(args) > 1 and cur.k in ("str", "unknown"):
             a1 = args[1].deref()
             part = a1.v if a1.k == "str" else repr(a1)
-            env[tgt] = vstr("%s/%s" % (cur.v, part)) if (cur.k == "str" and a1.k == "str") else Val("unknown", "%s/%s" % (cur.v if cur.k == "str" else (cur.v or ""), part))
+            env[tgt] = (vstr(part) if part.startswith("/") else vstr("%s/%s" % (cur.v.rstrip("/"), part))) if (cur.k == "str" and a1.k == "str") else Val("unknown", "%s/%s" % (cur.v if cur.k == "str" else (cur.v or ""), part))
             return UNIT
         if fn == "alloc::vec::Vec::pop" and cur.k == "list":
             if cur.v:
@@ -1335,6 +1550,27 @@ class Interp:
             return vstr(s0.strip() if m == "trim" else s0)
         if m == "contains" and pv is not None:
             return vbool(pv in s0)
+        if m == "lines":
+            ls = s0.split("\n")
+            if ls and ls[-1] == "":
+                ls = ls[:-1]
+            return Val("iter", [vstr(x[:-1] if x.endswith("\r") else x) for x in ls])
+        if m in ("trim_end_matches", "trim_matches") and pv:
+            while s0.endswith(pv):
+                s0 = s0[:-len(pv)]
+            while m == "trim_matches" and s0.startswith(pv):
+                s0 = s0[len(pv):]
+            return vstr(s0)
+        if m in ("trim_end", "trim_start"):
+            return vstr(s0.rstrip() if m == "trim_end" else s0.lstrip())
+        if m == "strip_suffix" and pv is not None:
+            return some(vstr(s0[:-len(pv)] if pv else s0)) if s0.endswith(pv) else NONE_V
+        if m in ("to_string", "to_owned", "into_string", "as_mut_str"):
+            return vstr(s0)
+        if m == "split_whitespace":
+            return Val("iter", [vstr(x) for x in s0.split()])
+        if m == "split_at" and p is not None and p.k == "int" and 0 <= p.v <= len(s0) and all(ord(ch) < 128 for ch in s0):
+            return Val("tuple", [vstr(s0[:p.v]), vstr(s0[p.v:])])
         return None
 
     # ---------------------------------------------------------------- Option/Result combinators and closures
